@@ -37,6 +37,9 @@ compares the tokenizer stage with reference models of the shipped tokenizers):
      offsets and is not modelled
  R4b in one-to-one chains every final token carries the (startchar, endchar)
      of a tokenizer-stage token: filters hand the offsets through
+ R6  the highlighter's re-tokenisation (the field's analyzer in index mode with
+     removestops=False, tokens marked ``stopped`` ignored) yields the
+     index-time token list with the same character offsets
  R5  Hit.highlights(f) for {Whole, Sentence, Context, Pinpoint}Fragmenter x
      {Uppercase, Html, Null}Formatter x search(terms=False|True): the three
      formatters agree modulo their markup; with markup stripped every
@@ -189,8 +192,15 @@ def _configs():
         c[n][1]["strong"] = True
     for n in CONTEXT_DEPENDENT:
         c[n][1]["exact"] = False
+    # dynamic (glob) fields: the same relations must hold when the field type is
+    # found through a name pattern instead of a declared name
+    for n in GLOB_VARIANTS:
+        build, flags = c[n]
+        c["glob_" + n] = (build, dict(flags, glob=True))
     return c
 
+
+GLOB_VARIANTS = ["standard", "stemming", "fancy", "f_keyword_lower_commas", "f_ngramwords"]
 
 # chains that emit exactly one token per source span: a marked span must
 # re-analyse to query terms only (strong form of R5)
@@ -358,7 +368,16 @@ class Env(object):
         # queries can span two fields that contain the same words (R5x)
         self.gname = "g"
         self.xfield = self.hl
-        if self.xfield:
+        if self.flags.get("glob"):
+            # the same field type registered as a DYNAMIC field: the concrete
+            # names exist only in the documents and in the queries
+            self.fname, self.gname = "f_dyn", "g_dyn"
+            self.schema = F.Schema(k=F.STORED)
+            self.schema.add("f_*", schema_field, glob=True)
+            if self.xfield:
+                gfield, _ = build_field(cfgname, keep)
+                self.schema.add("g_*", gfield, glob=True)
+        elif self.xfield:
             gfield, _ = build_field(cfgname, keep)
             self.schema = F.Schema(k=F.STORED, f=schema_field, g=gfield)
         else:
@@ -388,9 +407,9 @@ class Env(object):
                         continue
                 try:
                     if self.xfield:
-                        w.add_document(k=i, f=text, g=text)
+                        w.add_document(**{"k": i, self.fname: text, self.gname: text})
                     else:
-                        w.add_document(k=i, f=text)
+                        w.add_document(**{"k": i, self.fname: text})
                 except Exception as e:
                     self.build_problems[i] = (0, exc_kind(e), "add_document",
                                               "add_document(f=%r) raised %r" % (text, e))
@@ -666,6 +685,28 @@ def check_doc(env, i, acc=None):
         for run in sorted(runs):
             cnt("r3_phrase_checks")
             demand(3, "phrase%d" % len(run), ("phrase", run))
+
+    # R6: the highlighter re-tokenises the stored text with the field's analyzer
+    # in index mode but keeps the stop words (removestops=False) and ignores the
+    # tokens marked ``stopped``: what is left must be the index-time token list
+    try:
+        kw = {"mode": "index", "positions": True, "removestops": False}
+        if env.want_chars:
+            kw["chars"] = True
+        kept = [(t.text, getattr(t, "startchar", None), getattr(t, "endchar", None))
+                for t in env.field.tokenize(text, **kw) if not t.stopped]
+        cnt("r6_retokenisations")
+        want = [(tt, sc, ec) for tt, pos, sc, ec in itoks]
+        if kept != want:
+            if [k[0] for k in kept] != [w[0] for w in want]:
+                P.append((6, "retok-tokens", "", "text %r: the highlighter's analysis (index mode, stop words kept but marked) "
+                          "leaves the unstopped tokens %r, index-time analysis gave %r"
+                          % (text, [k[0] for k in kept], [w[0] for w in want])))
+            else:
+                P.append((6, "retok-offsets", "", "text %r: the highlighter's analysis gives (text, startchar, endchar) %r, "
+                          "index-time analysis %r" % (text, kept, want)))
+    except Exception as e:
+        P.append((6, exc_kind(e), "analyze-retok", "field.tokenize(%r, mode='index', removestops=False) raised %r" % (text, e)))
 
     # R4 ---------------------------------------------------------------
     last = None
@@ -1100,7 +1141,7 @@ def task(t):
                        "target": [0, kind, "construct"], "ctx": None},
                       "configuration %s: building the field raised %r" % (cfgname, e))
         return acc.result()
-    fieldkind = type(env.field).__name__
+    fieldkind = ("glob:" if env.flags.get("glob") else "") + type(env.field).__name__
     fullchain = chain_name(env.field)
     sigmap = {}
     try:
